@@ -40,6 +40,10 @@ class P(StreamProperty):
             # after finish (or, for the stream API, already before) decoding must be complete with the right symbols
             if fin and fin[0][1] != 'OK':
                 bad.append(('c02:k-symbols-not-decoded:%s' % cfg.kind, '%d distinct symbols (k=%d) but of_finish_decoding returned %s' % (distinct, k, fin[0][1]), fin[0][0]))
+            elif comp and c.meta['api'] == 'stream' and comp[0][1] != '1':
+                # symbols submitted one at a time: the k-th distinct one completes decoding, whatever it is and without of_finish_decoding
+                bad.append(('c02:k-symbols-not-complete-before-finish:%s' % cfg.kind, '%d distinct symbols (k=%d) were submitted through of_decode_with_new_symbol '
+                            'but decoding is not complete before of_finish_decoding is called' % (distinct, k), comp[0][0]))
             elif comp and (c.meta['finish'] or c.meta['api'] == 'stream') and comp[-1][1] != '1':
                 bad.append(('c02:k-symbols-not-complete:%s' % cfg.kind, '%d distinct symbols (k=%d) but decoding is not complete' % (distinct, k), comp[-1][0]))
             elif srcs and (c.meta['finish'] or c.meta['api'] == 'stream') and cw:
